@@ -29,20 +29,49 @@ def check(m, run):
     run.assume('a list returned by a getter is not mutated by the caller')
 
 
-def iv5(m, run):
-    """container caches are filled from the state of elements held by reference and handed out by add()/__getitem__"""
+def iv5(m, run, keep=None):
+    """container caches are filled from the state of elements held by reference and handed out by add()/__getitem__/__iter__:
+    every `self._cache[K]` store in a container class whose value derives from attributes of the contained elements is a cache the
+    container cannot invalidate when an element is edited (one obligation per class and key)"""
     import ast
-    from ..model import norm
-    ci = m.cls('multi', 'AbstractContainer')
-    g = ci.getters.get('evalpts')
-    reads_elem = g is not None and any(isinstance(n, ast.Attribute) and n.attr in ('evalpts', 'delta') and isinstance(n.value, ast.Name)
-                                       and n.value.id != 'self' for n in ast.walk(g.node))
-    hands_out = '__getitem__' in ci.methods or '__iter__' in ci.methods
-    run.ob('IV5.foreign-state-cache', "multi.AbstractContainer :: _cache['evalpts'] depends on element state",
-           not (reads_elem and hands_out),
-           'the aggregate cache is filled from elem.evalpts of elements that add()/__getitem__/__iter__ hand out by reference: editing an element '
-           'after reading the container aggregate leaves the aggregate stale, and the container cannot observe the edit'
-           if reads_elem and hands_out else 'aggregate does not depend on shared element state', rs.site(g) if g else '')
+    from ..model import norm, walk_no_nested
+    found = {}
+    for ck in sorted(k for k in m.classes if k[0] == 'multi'):
+        ci = m.classes[ck]
+        hands_out = any(m.lookup(ck, nm, 'methods') is not None for nm in ('__getitem__', '__iter__'))
+        members = list(ci.methods.values()) + list(ci.getters.values()) + list(ci.setters.values())
+        for fi in members:
+            tainted = set()
+            changed = True
+            while changed:
+                changed = False
+                for n in walk_no_nested(fi.node):
+                    if isinstance(n, ast.For) and isinstance(n.target, ast.Name) and n.target.id not in tainted:
+                        it = norm(n.iter)
+                        if it in ('self._elements', 'self') or any(isinstance(x, ast.Name) and x.id in tainted for x in ast.walk(n.iter)):
+                            tainted.add(n.target.id)
+                            changed = True
+                    if isinstance(n, (ast.Assign, ast.AugAssign)):
+                        tg = n.targets[0] if isinstance(n, ast.Assign) else n.target
+                        src = any((isinstance(x, ast.Name) and x.id in tainted) or norm(x) == 'self._elements' for x in ast.walk(n.value))
+                        if src and isinstance(tg, ast.Name) and tg.id not in tainted:
+                            tainted.add(tg.id)
+                            changed = True
+            for n in walk_no_nested(fi.node):
+                if isinstance(n, (ast.Assign, ast.AugAssign)):
+                    tg = n.targets[0] if isinstance(n, ast.Assign) else n.target
+                    if isinstance(tg, ast.Subscript) and norm(tg.value) == 'self._cache' and isinstance(tg.slice, ast.Constant):
+                        if any(isinstance(x, ast.Name) and x.id in tainted for x in ast.walk(n.value)):
+                            found.setdefault((ck, tg.slice.value), (fi, n, hands_out))
+    if keep is not None:
+        found = {k: v for k, v in found.items() if keep(k[1])}
+    for (ck, key), (fi, n, hands_out) in sorted(found.items()):
+        run.ob('IV5.foreign-state-cache', "multi.%s :: _cache['%s'] depends on element state" % (ck[1], key), not hands_out,
+               'the aggregate cache is filled (in %s) from attributes of elements that add()/__getitem__/__iter__ hand out by reference: editing an element '
+               'after reading the container aggregate leaves the aggregate stale, and the container cannot observe the edit' % fi.key
+               if hands_out else 'elements are not handed out', rs.site(fi, n))
+    if not found:
+        run.ob('IV5.foreign-state-cache', 'multi :: no aggregate cache', True, 'no container cache is filled from element state', '')
 
 
 def iv7(m, run):
